@@ -138,6 +138,16 @@ package ast
 //@   at call Buffer.Write: assert {number.literals.are.copied.only.after.the.grammar.check.passed.on.these.bytes} value.Kind == ValueKindInteger || value.Kind == ValueKindFloat ==> g_numOK && arr(arg1) == g_numArr && off(arg1) == g_numOff && len(arg1) == g_numLen
 //@   at call escapeControlBytes: assert {string.content.is.escaped.only.after.its.escape.sequences.were.checked} g_strOK && arr(arg0) == g_strArr && off(arg0) == g_strOff && len(arg0) == g_strLen
 //@   at call WrapBytes: assert {string.content.is.escaped.before.it.is.quoted} value.Kind == ValueKindString ==> (forall k in 0..len(arg0) :: arg0[k] >= 0x20)
+//@   ghost var g_wrapArr int = 0
+//@   ghost var g_wrapped bool = false
+//@   ghost var g_encoded bool = false
+//@   at call WrapBytes: ghost g_wrapArr = arr(result)
+//@   at call WrapBytes: ghost g_wrapped = true
+//@   at call Encoder.Encode: ghost g_encoded = result == nil
+//@   at call Buffer.Write: assert {string.content.reaches.the.buffer.only.quoted.after.escaping.or.through.the.json.encoder} value.Kind == ValueKindString ==> g_wrapped && arr(arg1) == g_wrapArr
+//@   at call Buffer.WriteByte: assert {no.hand.made.quoting.of.string.content} value.Kind != ValueKindString
+//@   at call? Buffer.WriteString: assert {no.hand.made.quoting.of.string.content} value.Kind != ValueKindString
+//@   ensures {a.string.literal.is.rendered.by.the.json.encoder.or.escaped.and.quoted} value.Kind == ValueKindString && result == nil ==> g_encoded || g_wrapped
 //@   modifies *
 //@   safety none
 
